@@ -14,7 +14,7 @@ func (vc *VC) assertsAfter(d *ssa.DebugRef) {
 	if vc.con == nil || len(vc.con.Asserts) == 0 || d.IsAddr || d.Object() == nil {
 		return
 	}
-	name := d.Object().Name()
+	name := vc.eng.rn(vc.selfKey(), d.Object().Name())
 	for _, c := range vc.con.Asserts {
 		if c.After != name {
 			continue
